@@ -189,6 +189,9 @@ def scan_forbidden() -> list[str]:
 def audit_property(pid: str) -> dict:
     """Compile properties/<pid>.v on its own, collect theorem names and Print Assumptions output."""
     src = COQ / "properties" / f"{pid}.v"
+    if not src.exists():
+        return {"theorems": [], "ok": False, "cmd": "", "wall_s": 0, "axioms": [], "closed": 0,
+                "log_tail": f"missing property file {src}", "n_print_assumptions": 0}
     txt = src.read_text()
     theorems = re.findall(r"^\s*(?:Theorem|Corollary)\s+([A-Za-z0-9_']+)", txt, re.M)
     lock = _lock()
